@@ -280,3 +280,11 @@ Fixpoint all_names (s : schema) : list string :=
 Definition separator_free : bool :=
   forallb (fun cs => forallb (fun n => negb (has_char us n)) (all_names (snd cs)))
           (("defaults", defaults_schema) :: style_classes).
+
+(* position of a leaf in sleaves (used to exhibit witnesses) *)
+Fixpoint index_of (p : path) (l : list (path * vkind * bool)) : nat :=
+  match l with
+  | [] => 0
+  | x :: r => if path_eqb p (fst (fst x)) then 0 else S (index_of p r)
+  end.
+Definition leaf_index (s : schema) (p : path) : nat := index_of p (sleaves s).
